@@ -1,11 +1,64 @@
-// Package c01: correspondence ops for C01 (stub, not yet built).
+// Package c01: simulated placements are feasible — whole scheduling passes of the real provisioner judged by
+// the Kubernetes admissibility specification (Lean), plus component correspondences.
 package c01
 
 import (
+	"encoding/json"
+	"fmt"
+	"math/rand/v2"
+
 	"verifharness/internal/core"
 	"verifharness/internal/registry"
+	"verifharness/internal/world"
 )
 
 func init() { registry.Register("C01", Ops) }
 
-func Ops() []*core.Op { return nil }
+func implPass(raw json.RawMessage) (any, error) {
+	var s world.Scenario
+	if err := json.Unmarshal(raw, &s); err != nil {
+		return nil, err
+	}
+	w, err := world.Build(&s)
+	if err != nil {
+		return nil, err
+	}
+	res, err := w.Schedule()
+	if err != nil {
+		return world.Outcome{Err: err.Error()}, nil
+	}
+	return world.Extract(res), nil
+}
+
+var passOpts = world.GenOpts{InterPod: 0.15, NodeAffinity: 0.45, Existing: 0.7, Limits: 0.2}
+
+func Ops() []*core.Op {
+	return []*core.Op{
+		{
+			Name: "c01.pass",
+			Doc:  "whole real Provisioner.Schedule passes on generated clusters (catalogs, NodePools, existing/in-flight/deleting/unmanaged nodes with bound pods, daemonsets, pending pods with selectors/affinity/preferences/tolerations/host ports); every placement judged by the Kubernetes admissibility spec",
+			N:    func(t core.Tier) int { return map[core.Tier]int{core.Quick: 400, core.Thorough: 8000}[t] },
+			Gen:  func(r *rand.Rand, t core.Tier) any { return world.GenScenario(r, passOpts) },
+			Impl: implPass,
+			Rule: "non-trivial = at least one pod was placed (on an existing node or a new NodeClaim)",
+			Nontrivial: func(raw json.RawMessage, impl any) bool {
+				m, _ := impl.(map[string]any)
+				e, _ := m["existing"].([]any)
+				c, _ := m["claims"].([]any)
+				return len(e)+len(c) > 0
+			},
+			Labels: func(raw json.RawMessage, impl any) []string {
+				m, _ := impl.(map[string]any)
+				e, _ := m["existing"].([]any)
+				c, _ := m["claims"].([]any)
+				er, _ := m["errors"].(map[string]any)
+				l := []string{fmt.Sprintf("existing-placements=%d", min(len(e), 3)), fmt.Sprintf("new-claims=%d", min(len(c), 4)), fmt.Sprintf("errors=%d", min(len(er), 3))}
+				if s, _ := m["err"].(string); s != "" {
+					l = append(l, "schedule-error")
+				}
+				return l
+			},
+			Signature: func(raw json.RawMessage, impl any) string { return "pass" },
+		},
+	}
+}
